@@ -20,7 +20,7 @@ def correspond(ctx, name, each, red=()):
             ctx.broke('correspondence', f'Driver model ({fn}) vs real driver', f'scenario {cs[b][2]} impl output {cs[b][1]}')
 
 
-def seq_reference(sc, order):
+def seq_reference(sc, order, maxto=None):
     """Independent textbook loop over in-memory contents (one candidate at a time); raising or
     INVALID transforms and non-zero verdicts are simply not accepted.  None if it diverges."""
     names = [n for n, _ in sc['files']]
@@ -44,6 +44,7 @@ def seq_reference(sc, order):
             while state is not None:
                 win = None
                 s = state
+                tcount = 0
                 while s is not None:
                     try:
                         r = apply_op(ops[s], disk[n])
@@ -54,9 +55,14 @@ def seq_reference(sc, order):
                     if not isinstance(r, PassResult) and r != disk[n]:
                         trial = dict(disk)
                         trial[n] = r
-                        if run_rules(rules, [trial[m] for m in names]) == 0:
+                        verdict = run_rules(rules, [trial[m] for m in names])
+                        if verdict == 0:
                             win = (s, r)
                             break
+                        if verdict == 'timeout' and maxto is not None:
+                            tcount += 1
+                            if tcount >= maxto:
+                                break      # MAX_TIMEOUTS ends the round (sequential semantics, N = 1)
                     s = s + 1 if s + 1 < len(ops) else None
                 if win is None:
                     break
